@@ -382,6 +382,12 @@ func (s *SecureChannel) Receive(ctx context.Context) *MessageBody {
 
 			s.chunksMu.Unlock()
 
+			// the final chunk counts as well
+			if n, max := len(all), s.c.MaxChunkCount(); max > 0 && uint32(n) > max {
+				msg.Err = errors.Errorf("too many chunks: %d > %d", n, max)
+				return msg
+			}
+
 			b, err := mergeChunks(all)
 			if err != nil {
 				msg.Err = err
